@@ -43,8 +43,10 @@ commands:
 """
 
 # how the two nodes are declared: (node name suffix, attribute lines)
-T_SPELLINGS = {"slash": ("/", []), "type": ("", ["type: directory"]), "is-directory": ("", ["is-directory: true"])}
-S_SPELLINGS = {"is-directory-structure": ("/", ["is-directory-structure: true"]), "type": ("", ["type: directory-structure"])}
+# (a directory node has to be NAMED with the trailing slash: the tasks request Node(<name without the slash>) for the
+#  directory itself, so the same attributes on a slash-less name make the node depend on itself: "cycle detected")
+T_SPELLINGS = {"slash": ("/", []), "type": ("/", ["type: directory"]), "is-directory": ("/", ["is-directory: true"])}
+S_SPELLINGS = {"is-directory-structure": ("/", ["is-directory-structure: true"]), "type": ("/", ["type: directory-structure"])}
 
 def yq(s):
     return '"' + s.replace("\\", "\\\\").replace('"', '\\"') + '"'
